@@ -312,8 +312,12 @@ class EscapeAnalysis:
                 return out  # re-raise: accounted for by handler_reraises at the Try level
             if cls is not None and self.model.known(cls):
                 out.append(Esc(cls, fi.loc(st), norm(st, 100)))
+            elif cls is not None and cls[:1].isupper() and isinstance(st.exc, ast.Call):
+                # an exception class the tables do not know (e.g. another falcon.HTTP* class): keep its name;
+                # ancestors() treats an unknown class as a plain Exception subclass
+                out.append(Esc(cls, fi.loc(st), norm(st, 100)))
             elif cls is not None:
-                # raising a variable / unknown class: treat as Exception
+                # raising a variable: treat as Exception
                 out.append(Esc("Exception", fi.loc(st), norm(st, 100)))
             return out
         out = []
